@@ -22,7 +22,7 @@ RULE = ("all 48 orientation codes x RAS sizes x chunk sizes x pixel kinds "
         "{grey uint8, grey uint16, RGB uint8, two directories = 2 channels} "
         "x storage {flat no-gzip, deep gzip, sharded(1,1,0) for cubic "
         "chunks}, plus label stacks stored as compressed_segmentation for "
-        "all 48 codes (quick: 2 sizes x 2 chunk sizes x 2 pixel kinds x 1-2 "
+        "all 48 codes, also with 2 and 3 channels sharing their label sets (quick: 2 sizes x 2 chunk sizes x 2 pixel kinds x 1-2 "
         "storages; thorough: 6 x 5 x 4 x 3); slice counts smaller than, "
         "equal to and not divisible by the chunk depth occur for every "
         "axis. Each case writes real PNG files, runs "
@@ -55,6 +55,9 @@ def all_codes():
 
 def stack_value(c, r, k, ch, kind):
     """position code; distinct for all positions of the sizes used"""
+    if kind.endswith("-labels"):
+        # few labels, the same label sets in every channel
+        return ((c // 2 + 2 * (r // 2) + k // 2 + ch) % 3) * 90 + 5
     v = 1 + c + 7 * r + 41 * k + 3 * ch
     if kind == "uint16":
         return (v * 257 + 300) % 65536
@@ -85,14 +88,14 @@ def write_slices(d, code, size, kind):
     import PIL.Image
     a = [AXIS[ch] for ch in code]
     n = [size[a[0]], size[a[1]], size[a[2]]]
-    ndirs = 2 if kind == "two-dirs" else 1
+    ndirs = 2 if kind.startswith("two-dirs") else 1
     dirs = []
     for di in range(ndirs):
         sd = os.path.join(d, "slices%d" % di)
         os.makedirs(sd)
         dirs.append(sd)
         for k in range(n[2]):
-            if kind == "rgb":
+            if kind.startswith("rgb"):
                 img = np.zeros((n[1], n[0], 3), dtype=np.uint8)
                 for ch in range(3):
                     for r in range(n[1]):
@@ -128,7 +131,8 @@ def _eval_in(col, case, d):
     from neuroglancer_scripts.scripts import slices_to_precomputed as s2p
     code, size, cs, kind = (case["code"], case["size"], case["chunk"],
                             case["pixels"])
-    nch = {"uint8": 1, "uint16": 1, "rgb": 3, "two-dirs": 2}[kind]
+    nch = {"uint8": 1, "uint16": 1, "rgb": 3, "two-dirs": 2,
+           "rgb-labels": 3, "two-dirs-labels": 2}[kind]
     dirs, n = write_slices(d, code, size, kind)
     dest = os.path.join(d, "ds")
     os.makedirs(dest)
@@ -240,6 +244,15 @@ def cases(tier):
                 continue
             out.append({"code": code, "size": list(size), "chunk": list(cs),
                         "pixels": "uint8", "storage": "flat-nogzip",
+                        "encoding": "compressed_segmentation"})
+    # multi-channel label stacks (same label sets in every channel)
+    for code in codes:
+        for kind in ("two-dirs-labels", "rgb-labels"):
+            if tier == "quick" and (codes.index(code) % 8 != (
+                    0 if kind == "rgb-labels" else 3)):
+                continue
+            out.append({"code": code, "size": [4, 6, 5], "chunk": [4, 4, 4],
+                        "pixels": kind, "storage": "flat-nogzip",
                         "encoding": "compressed_segmentation"})
     # quick also covers the other two pixel kinds on a few codes
     if tier == "quick":
